@@ -1071,8 +1071,8 @@ func main() {
 		} else {
 			g.exhaustive(2, []string{"r0", "r1", "s", "m"}, true)
 			g.exhaustive(3, []string{"r0", "r1", "r2"}, false)
-			g.randomSmallPermuted(12)
-			g.randomGraphs(700, 9)
+			g.randomSmallPermuted(8)
+			g.randomGraphs(500, 9)
 		}
 		rep.Exhaustive = true
 	}
